@@ -41,7 +41,7 @@ def determine_active(pid, prop, quiet=False):
         ctx.ACTIVE = frozenset()
         res = prop.check_case(doc["case"])
         if res.disc:
-            active.add(e["id"])
+            active.add(e.get("model", e["id"]))
             if not quiet:
                 print(f"KNOWN-FINDING: property={pid} id={e['id']} {e['desc']}")
         elif not quiet:
